@@ -92,6 +92,21 @@ def run(res, ctx):
                     if errs:
                         res.violation("file skipped through this channel", {"channel": chan, "variant": label, "source_hex": raw.hex(), "errors": errs})
                         continue
+                    # the excerpt of every finding shows the same source lines through file and stdin (stdin excerpts are cut from the buffered bytes:
+                    # found by tools/mutation — dropping the line-skipping readline() in Issue.get_code survived every check).  Compared within one
+                    # UTF-8 variant only: a legacy-encoded excerpt from stdin is decoded as UTF-8 with replacement characters by design.
+                    if label.startswith("utf-8"):
+                        try:
+                            codes = sorted((x["test_id"], x["line_number"], x["code"].replace("\r\n", "\n").replace("\ufeff", "")) for x in json.loads(r["out"])["results"])   # line terminators and a BOM are not compared
+                        except Exception:
+                            codes = None
+                        key2 = (pi, label)
+                        seen_codes = ctx.setdefault("_codes", {})
+                        if key2 in seen_codes and codes is not None and seen_codes[key2][0] != codes:
+                            res.violation("the code excerpts of the same program differ between file and stdin",
+                                          {"program": src, "variant": label, "a": {"channel": seen_codes[key2][1], "excerpts": seen_codes[key2][0][:4]},
+                                           "b": {"channel": chan, "excerpts": codes[:4]}})
+                        seen_codes.setdefault(key2, (codes, chan))
                     if ref is None:
                         ref = (fs, label, chan)
                     elif fs != ref[0]:
